@@ -21,10 +21,15 @@ def parse_rows(o):
     return rows
 
 
-def real_rows(which, m):
+def real_rows(which, m, as_array=False):
     k = len(m)
     tm = []
-    getattr(_cluster, which)(dict((i, [i]) for i in range(k)), [list(r) for r in m], tm)
+    if as_array:
+        import numpy as np
+        mat = np.array([list(map(float, r)) for r in m], dtype=float)     # the documented alternative to nested lists
+    else:
+        mat = [list(r) for r in m]
+    getattr(_cluster, which)(dict((i, [i]) for i in range(k)), mat, tm)
     return [(a, b, float(c), float(d)) for a, b, c, d in tm]
 
 
@@ -285,6 +290,29 @@ def run(chk):
             for which in ('_upgma', '_neighbor'):
                 if len(m) >= (2 if which == '_upgma' else 3) and real_rows(which, sq) != real_rows(which, m):
                     fails.append((which, m, 'the tree built from squareform(condensed distances) differs from the tree built from the same distances as nested lists'))
+    # the same distances given as a two-dimensional numpy array: the tree is the tree of the numbers, whatever holds them
+    for idx, _g in (gen_a + gen_u)[::chk.n(4, 1)]:
+        m = mats[idx][0]
+        n = len(m)
+        for which in ('_upgma', '_neighbor'):
+            if n < (2 if which == '_upgma' else 3):
+                continue
+            chk.evaluations += 1
+            try:
+                rows_arr = real_rows(which, m, as_array=True)
+            except Exception as ex:  # noqa
+                fails.append((which, m, 'raised %s on a numpy array of the distances: %s' % (type(ex).__name__, str(ex)[:80])))
+                continue
+            if rows_arr != reals[which][idx]:
+                why = 'the tree matrix built from a numpy array of the distances differs from the one built from nested lists'
+                try:
+                    kids, root = decode(rows_arr, n)
+                    pl = path_lengths(kids, root, n)
+                    if mats[idx][1] == 'additive' and which == '_neighbor' and any(abs(pl[i, j] - m[i][j]) > 1e-9 for i in range(n) for j in range(i + 1, n)):
+                        why = 'numpy array input: path sums of the NJ tree do not reproduce the input distances (%r for %r)' % (pl[0, 1], m[0][1])
+                except ValueError as ex:
+                    why = 'numpy array input: tree matrix is not a valid join sequence: %s' % ex
+                fails.append((which, m, why))
     for idx, cladesG in gen_u:
         m = mats[idx][0]
         n = len(m)
